@@ -322,6 +322,105 @@ Proof.
   unfold stm_inv in Hi. replace (0 <=? st_pos s) with true by lia. reflexivity.
 Qed.
 
+(* ---------------------------------------------------------------- alternating use *)
+(* any alternation of stream-op segments and typed-read segments on one stream *)
+Definition brg_seg_ok (g : brg_seg) : bool :=
+  match g with BrgOps _ => true | BrgReads rops => forallb oct_op_ok rops end.
+
+Fixpoint brg_phases_safe (v : oct_variant) (s : stm_state) (segs : list brg_seg) (obs : list brg_seg_obs) : Prop :=
+  match segs, obs with
+  | [], [] => True
+  | BrgOps ops :: tl, BrgOpsObs t :: obs' =>
+      exists s1 rs,
+        stm_run StmFixed s ops = Ok (s1, rs) /\ length rs = length ops /\
+        t = stm_trace StmFixed s ops /\ forallb stm_line_clean t = true /\ length t = length ops /\
+        0 <= st_pos s1 <= stm_len s1 /\
+        brg_phases_safe v s1 tl obs'
+  | BrgReads rops :: tl, BrgReadsObs rs b :: obs' =>
+      let o := brg_oct s in
+      let o1 := brg_after_reads o rs in
+      brg_rel s o /\ rs = oct_run_reads v rops o /\
+      oct_reads_safe v o rs /\ brg_fixed_fail_nothing rops o rs /\
+      oct_buf o1 = oct_buf o /\ oct_position o <= oct_position o1 <= oct_len o /\
+      b = Ok (oct_rest o1) /\
+      brg_phases_safe v (brg_stm o1) tl obs'
+  | _, _ => False
+  end.
+
+Lemma after_reads_wf v ops : forall s,
+  oct_wf s -> forallb oct_op_ok ops = true ->
+  oct_wf (brg_after_reads s (oct_run_reads v ops s)) /\
+  oct_buf (brg_after_reads s (oct_run_reads v ops s)) = oct_buf s /\
+  (oct_pos s <= oct_pos (brg_after_reads s (oct_run_reads v ops s)))%nat.
+Proof.
+  induction ops as [|op ops IH]; intros s Hwf Hok; cbn [oct_run_reads brg_after_reads].
+  - split; [exact Hwf|]. split; [reflexivity|apply Nat.le_refl].
+  - cbn [forallb] in Hok. apply andb_true_iff in Hok. destruct Hok as [Hok Hoks].
+    destruct (oct_read_op v op s) as [[r s'] a] eqn:E. cbn [fst snd].
+    destruct (read_op_view _ _ _ _ _ _ Hwf Hok E) as (n & Hv & Hs' & Hle).
+    assert (Hwf' : oct_wf s') by (subst s'; apply adv_wf; assumption).
+    destruct (IH s' Hwf' Hoks) as (H1 & H2 & H3).
+    split; [exact H1|]. split; [rewrite H2; subst s'; reflexivity|].
+    subst s'. assert (Ha : oct_pos (oct_adv s n) = (oct_pos s + n)%nat) by reflexivity. lia.
+Qed.
+
+Lemma phases_safe_lemma v segs : forall s,
+  stm_inv s -> forallb brg_seg_ok segs = true ->
+  brg_phases_safe v s segs (brg_phases StmFixed v s segs).
+Proof.
+  induction segs as [|g tl IH]; intros s Hi Hok; cbn [brg_phases brg_phases_safe]; [exact I|].
+  cbn [forallb] in Hok. apply andb_true_iff in Hok. destruct Hok as [Hg Htl].
+  destruct g as [ops|rops]; cbn [brg_phases brg_phases_safe].
+  - destruct (stm_run_total ops s Hi) as (s1 & rs & Hr & Hi1 & Hlen).
+    rewrite brg_trace_run, Hr. rewrite (brg_trace_is_stm_trace ops s Hi).
+    destruct (stm_trace_clean ops s Hi) as [Hc Hl].
+    exists s1, rs. repeat split; try assumption; try (apply Hi1). apply IH; assumption.
+  - cbn [brg_seg_ok] in Hg. pose proof Hi as Hi'. unfold stm_inv in Hi'.
+    replace (0 <=? st_pos s) with true by lia. cbn [brg_phases_safe]. cbn zeta.
+    assert (Hrel : brg_rel s (brg_oct s)) by (apply brg_rel_oct; lia).
+    assert (Hwf : oct_wf (brg_oct s)) by (apply (brg_inv_wf s _ Hrel); exact Hi).
+    destruct (after_reads_wf v rops (brg_oct s) Hwf Hg) as (Hwf1 & Hb1 & Hp1).
+    set (o1 := brg_after_reads (brg_oct s) (oct_run_reads v rops (brg_oct s))) in *.
+    split; [exact Hrel|]. split; [reflexivity|].
+    split; [apply reads_safe_lemma; assumption|].
+    split; [apply brg_fixed_fail_nothing_lemma; assumption|].
+    split; [exact Hb1|].
+    split. { unfold oct_wf in Hwf1. unfold oct_position, oct_len. rewrite <- Hb1. lia. }
+    split. { apply (brg_bytes_rest (brg_stm o1) o1 (brg_rel_stm o1) Hwf1). }
+    apply IH; [|exact Htl]. apply (brg_inv_wf (brg_stm o1) o1 (brg_rel_stm o1)). exact Hwf1.
+Qed.
+
+(* the two-segment alternation is brg_case *)
+Lemma phases_two sv v ops rops :
+  brg_phases sv v stm_init [BrgOps ops; BrgReads rops] =
+  BrgOpsObs (fst (brg_case sv v ops rops)) ::
+  match snd (brg_trace sv stm_init ops), snd (brg_case sv v ops rops) with
+  | Some s, Some rs => [BrgReadsObs rs (stm_bytes (brg_stm (brg_after_reads (brg_oct s) rs)))]
+  | _, _ => []
+  end.
+Proof.
+  unfold brg_case. cbn [brg_phases fst snd].
+  destruct (snd (brg_trace sv stm_init ops)) as [s|]; [|reflexivity].
+  cbn [brg_phases]. destruct (0 <=? st_pos s); reflexivity.
+Qed.
+
+Lemma alternation_safe_lemma v segs :
+  forallb brg_seg_ok segs = true -> brg_phases_safe v stm_init segs (brg_phases StmFixed v stm_init segs).
+Proof. intros H. apply phases_safe_lemma; [exact stm_inv_init|exact H]. Qed.
+
+Lemma c12s_alternation_example :
+  brg_phases StmFixed OctFixed stm_init
+    [BrgOps [SWrite [2; 65; 66; 7; 1]; SSeek 9 0]; BrgReads [OpBytes];
+     BrgOps [STidy; SWrite [3]; SSeek (-1) 1; SSeek 1 1]; BrgReads [OpInt16 OctViaReader; OpInt32 OctViaStream];
+     BrgOps [SReset; SWrite [1; 88]]; BrgReads [OpString; OpByte OctViaStream]] =
+  [BrgOpsObs (stm_trace StmFixed stm_init [SWrite [2; 65; 66; 7; 1]; SSeek 9 0]);
+   BrgReadsObs [(Ok (OVBytes [65; 66]), oct_mk [2; 65; 66; 7; 1] 3, 2)] (Ok [7; 1]);
+   BrgOpsObs (stm_trace StmFixed (mk_stm [2; 65; 66; 7; 1] 3) [STidy; SWrite [3]; SSeek (-1) 1; SSeek 1 1]);
+   BrgReadsObs [(Ok (OVInt16 769), oct_mk [7; 1; 3] 3, 0); (Err OctErrNotEnoughData, oct_mk [7; 1; 3] 3, 0)] (Ok []);
+   BrgOpsObs (stm_trace StmFixed (mk_stm [7; 1; 3] 3) [SReset; SWrite [1; 88]]);
+   BrgReadsObs [(Ok (OVString [88]), oct_mk [1; 88] 2, 1); (Err OctErrNotEnoughData, oct_mk [1; 88] 2, 0)] (Ok [])].
+Proof. vm_compute. reflexivity. Qed.
+
 (* the pre-fix Seek (no upper bound): after Write(4 bytes); Seek(10, SeekStart) the state
    corresponds to an Octets state with Position() = 10 > Len() = 4, on which
    OctetsStream.Read(make([]byte,1)) panics (slice bounds out of range [10:4]) and
